@@ -245,7 +245,7 @@ func (g *gen) timeUnit(id string) *UnitCase {
 		v = jNum(pick(r, dateNums))
 	case 8:
 		// numeric epoch milliseconds across the whole range incl. after 2262 and negative
-		v = jNum(math.Floor((float64(r.next()%(1<<53))/float64(uint64(1)<<53)*2-1) * 3e14))
+		v = jNum(math.Floor((float64(r.next()%(1<<53))/float64(uint64(1)<<53)*2 - 1) * 3e14))
 		if r.chance(1, 4) {
 			v = jNum(pick(r, []float64{253402300799000, 253402300799999.5, -62135596800000, -62167219200000, 9223372036854.775, 9223372036854776, 9.3e18, 1e300, -1e300, 0.999, -0.999}))
 		}
@@ -286,6 +286,29 @@ func (g *gen) clauseUnit(id string) *UnitCase {
 	ec := g.operatorCase(id)
 	c := &UnitCase{ID: id, Kind: "clause", Ctx: &ec.Ctx, Clause: &ec.Flag.Rules[0].Clauses[0]}
 	if g.r.bool() {
+		c.Flag = &WFlag{Form: "pre"}
+	}
+	return c
+}
+
+// accessorUnit: a clause (plain or preprocessed) probed through the exported accessors with an
+// arbitrary index (in range, one past the end, far out, negative), sometimes a nil clause.
+func (g *gen) accessorUnit(id string) *UnitCase {
+	ec := g.operatorCase(id)
+	cl := ec.Flag.Rules[0].Clauses[0]
+	r := g.r
+	// mixed value kinds regardless of the operator
+	if r.chance(1, 3) {
+		cl.Vals = append(cl.Vals, jStr(pick(r, dateStrs)), jStr(pick(r, verStrs)), jStr(pick(r, regexStrs)), jNum(pick(r, dateNums)))
+	}
+	n := len(cl.Vals)
+	idx := pick(r, []int{0, 0, 1, n - 1, n, n + 1, -1, -2, 1 << 30, -(1 << 30), r.intn(n + 2)})
+	probe := g.value(0)
+	if n > 0 && r.chance(1, 2) {
+		probe = cl.Vals[r.intn(n)]
+	}
+	c := &UnitCase{ID: id, Kind: "accessor", Clause: &cl, Idx: idx, Nil: r.chance(1, 25), V: &probe}
+	if r.bool() {
 		c.Flag = &WFlag{Form: "pre"}
 	}
 	return c
